@@ -407,11 +407,12 @@ class SelectedMailbox:
                    self._session_flags, self._selected_set, self._lookup,
                    _mod_sequence=self._mod_sequence,
                    _prev=frozen, _messages=self._messages)
+        untagged: Iterable[UntaggedResponse] = []
         if self._prev is not None:
             with_uid: bool = getattr(command, 'uid', False)
-            untagged = self._compare(self._prev, frozen, with_uid)
-        else:
-            untagged = []
+            # must not be evaluated lazily, the responses would be built
+            # from whatever the state is by the time they are written
+            untagged = list(self._compare(self._prev, frozen, with_uid))
         return copy, untagged
 
     def _compare(self, before: _Frozen, after: _Frozen,
@@ -419,7 +420,7 @@ class SelectedMailbox:
         if after.is_deleted:
             yield ResponseBye(b'Selected mailbox no longer exists.')
             return
-        cache = self._messages._cache
+        flags_key_map = self._messages._flags_key_map
         session_flags = self._session_flags
         expunged_uids = before.uids - after.uids
         new_uids = after.uids - before.uids
@@ -444,7 +445,10 @@ class SelectedMailbox:
                            (uid for uid, _ in new_sflags))
         for uid, _ in groupby(sorted(fetch_uids)):
             seq = after.seqs_cache[uid]
-            msg_flags = cache[uid].get_flags(session_flags)
+            # report the flags that were synchronized, the message object
+            # may already reflect later updates by other sessions
+            _, permanent_flags = flags_key_map[uid]
+            msg_flags = permanent_flags | session_flags.get(uid)
             fetch_data: list[FetchValue] = [
                 FetchValue.of(_flags_attr, List(msg_flags, sort=True))]
             if with_uid:
